@@ -26,6 +26,10 @@ CLAIMS = {
             'trusted: extractor, sequential view, DashMap/HashSet shims, parser abstract (parse_ok/ast_of), visitors abstract (vdefs/vuses, A7)', '§5-C06'),
     'C07': ('proof', 'The memo wrappers get_available_fixtures and detect_fixture_cycles are proved to return what a recomputation returns (warm == cold) under a cache invariant, and to re-establish it; analyze_file_internal is proved to move definitions_version on every call (after fix), which is what keeps the invariant across edits. Three genuine defects found on the way were repaired (F-07a/b/c).',
             'trusted: as C06; compute_* abstract; get_imported_fixtures memo and eviction not under contract', '§5-C07'),
+    'C08': ('proof', 'Order independence is a lemma over the proved operational spec of resolution: two registration orders that only interleave files differently (the only effect a scan schedule has on definitions[name]) give the same answer, provided the three first-come-first-served choices agree (import branch, several plugins, several third-party packages defining the name) — these hypotheses name exactly the order-dependent sites; hash-ordered loops under contract are verified for every enumeration order. Known findings: F-01 (import branch), F-16b (cycle graph).',
+            'as C01; the model of a schedule (interleaving of per-file sub-sequences) is taken from the property text', '§5-C08'),
+    'C15': ('proof', 'Line/column arithmetic is proved exactly: build_line_index == the ascending newline positions (+1), get_line_from_offset / get_char_position_from_offset return the unique (line, column) with line_start + column == offset, for every offset (no panic); lemmas: monotone, single-line tokens give start <= end with the token length, round trip; the column is the BYTE count since the line start — equal to the UTF-16 column only for ASCII prefixes: known finding F-15a with a proved counterexample.',
+            'trusted: memchr_iter / binary_search assumed specs; handler-built Range literals and visitor span arithmetic not covered', '§5-C15'),
     'C10': ('proof', 'Sequential clauses only: the contract of analyze_file_internal gives, for both orders of {scan analyses F from disk, editor analyses F from the buffer}, the resulting entries of F; lemma restore: one further analyze_file(F, t) makes F\'s entries exactly those of t; lemma fresh-keeps-old: analyze_file_fresh on a non-empty index keeps the old entries — known finding F-10 (open then scan yields both).',
             'no thread model: interleavings are out of reach (see DESIGN §2)', '§5-C10'),
 }
